@@ -88,6 +88,51 @@ theorem modelled_operations_report_failures (op : String) (p : Prog) (_ : opProg
     Spec.Fault.FailureReturnsError (asSystem fsSem p fs) (fun f => f.1 < (exec fsSem none p fs).log.length) (Excluded fsSem p fs) :=
   ⟨failure_is_reported fsSem p fs, failure_returns_error fsSem p fs⟩
 
+/-- the struct-API request whose callbacks look at what was read (`cached-migrate` of `opProg`): typed read, generic read,
+`invalid_metadata_action` as a migration of the old metadata, then the action it chose -/
+def cachedMigrate : Prog := handleLayerD lx typesAll .versioned migrateInv restoredByMeta 3
+/-- the trait-API request with a data-dependent `existing_layer_strategy` / `update` / `migrate_incompatible_metadata` (`t-migrate`) -/
+def traitMigrate : Prog := tHandleD lx typesAll strategyByData migrateT created updatedByData 3
+
+/-- **M1 for the migrating `cached_layer`.** In every state, a fault (other than ENOENT at a best-effort delete) at ANY call the
+fault-free run makes — in particular at the second, generic read of `<layer>.toml` whose result is handed to
+`invalid_metadata_action` — is returned as that error: the callback is never asked with "no metadata" in its place. -/
+theorem cached_migrate_fault_propagates (fs : FS) (k : Nat) (e : Errno) (ev : Ev FS)
+    (hk : (exec fsSem none cachedMigrate fs).log[k]? = some ev) (hx : ¬ (ev.tol = true ∧ e = .enoent)) :
+    (exec fsSem (some (k, e)) cachedMigrate fs).out = .err (.io e) :=
+  fault_propagates fsSem cachedMigrate fs k e ev hk hx
+
+/-- **M2 for the migrating `cached_layer`**: success under a fault only as the fault-free run (same migrated metadata, same
+directory), whatever the callbacks would have answered on other data. -/
+theorem cached_migrate_success_only_fault_free (fs : FS) (k : Nat) (e : Errno)
+    (hx : ∀ ev, (exec fsSem none cachedMigrate fs).log[k]? = some ev → ¬ (ev.tol = true ∧ e = .enoent))
+    (hok : (exec fsSem (some (k, e)) cachedMigrate fs).out.isOk = true) :
+    exec fsSem (some (k, e)) cachedMigrate fs = exec fsSem none cachedMigrate fs :=
+  success_only_fault_free fsSem cachedMigrate fs k e hx hok
+
+/-- **M1 for the migrating trait-API `handle_layer`** (typed read + env, generic read + env, migration, write-back, re-entry). -/
+theorem trait_migrate_fault_propagates (fs : FS) (k : Nat) (e : Errno) (ev : Ev FS)
+    (hk : (exec fsSem none traitMigrate fs).log[k]? = some ev) (hx : ¬ (ev.tol = true ∧ e = .enoent)) :
+    (exec fsSem (some (k, e)) traitMigrate fs).out = .err (.io e) :=
+  fault_propagates fsSem traitMigrate fs k e ev hk hx
+
+/-- **M2 for the migrating trait-API `handle_layer`.** -/
+theorem trait_migrate_success_only_fault_free (fs : FS) (k : Nat) (e : Errno)
+    (hx : ∀ ev, (exec fsSem none traitMigrate fs).log[k]? = some ev → ¬ (ev.tol = true ∧ e = .enoent))
+    (hok : (exec fsSem (some (k, e)) traitMigrate fs).out.isOk = true) :
+    exec fsSem (some (k, e)) traitMigrate fs = exec fsSem none traitMigrate fs :=
+  success_only_fault_free fsSem traitMigrate fs k e hx hok
+
+/-- **The same for every program built from data-dependent callbacks**: whatever functions of the data read from disk the
+buildpack supplies as `invalid_metadata_action` / `restored_layer_action`, a run of `struct_api::handle_layer` that returns
+ok under a non-excluded fault is the fault-free run. -/
+theorem handle_layer_any_callbacks_success_only_fault_free (n : String) (t : LTypes) (mt : MetaT)
+    (ci : Option MetaTbl → CbInv) (cr : Option MetaTbl → CbRes) (fuel : Nat) (fs : FS) (k : Nat) (e : Errno)
+    (hx : ∀ ev, (exec fsSem none (handleLayerD n t mt ci cr fuel) fs).log[k]? = some ev → ¬ (ev.tol = true ∧ e = .enoent))
+    (hok : (exec fsSem (some (k, e)) (handleLayerD n t mt ci cr fuel) fs).out.isOk = true) :
+    exec fsSem (some (k, e)) (handleLayerD n t mt ci cr fuel) fs = exec fsSem none (handleLayerD n t mt ci cr fuel) fs :=
+  success_only_fault_free fsSem _ fs k e hx hok
+
 /-- **The catching combinator swallows only not-found.** If the body of a `tolerate` ends in any error other than the I/O
 error `ENOENT`, the whole `tolerate b k` ends in that error, in the body's final state, without running `k`. -/
 theorem tolerate_swallows_only_not_found (S : Sem σ) (plan : Plan) (tol : Bool) (b k : Prog) (s : σ) (n : Nat) (x : Err)
@@ -155,6 +200,23 @@ example : (exec fsSem none cachedKeep ((prepared "full").getD [])).log.length = 
 
 /-- … and failing its last call (the write of `x.toml`) with ENOSPC is an error -/
 example : (exec fsSem (some (2, .enospc)) cachedKeep ((prepared "full").getD [])).out = .err (.io .enospc) := by decide
+
+/-- `cached-migrate` on the layer `invalid` (metadata `{ w = 2 }`): seven calls — typed read, generic read, (migration to
+`v = 12`) read + write of `replace_layer_metadata`, typed read of the re-entry, read + write of `replace_layer_types` — and
+the layer is kept with the migrated metadata … -/
+example : (exec fsSem none cachedMigrate ((prepared "invalid").getD [])).log.length = 7
+    ∧ (exec fsSem none cachedMigrate ((prepared "invalid").getD [])).out.isOk = true
+    ∧ (exec fsSem none cachedMigrate ((prepared "invalid").getD [])).st.get ["layers", "x.toml"]
+        = some (.file (.ltoml (.doc (some typesAll) (some ⟨some 12, none⟩))))
+    ∧ (exec fsSem none cachedMigrate ((prepared "invalid").getD [])).st.has ["layers", "x", "data", "file"] = true := by decide
+
+/-- … and failing call 1 (the generic read handed to the migration) is an error, the layer untouched: not "no metadata → delete" -/
+example : (exec fsSem (some (1, .eio)) cachedMigrate ((prepared "invalid").getD [])).out = .err (.io .eio)
+    ∧ (exec fsSem (some (1, .eio)) cachedMigrate ((prepared "invalid").getD [])).st = (prepared "invalid").getD [] := by decide
+
+/-- the callbacks really depend on the data: without metadata the migration deletes, a stale value is not kept -/
+example : migrateInv none = .delete 2 ∧ migrateInv (some ⟨none, some 2⟩) = .replace ⟨some 12, none⟩ 1
+    ∧ restoredByMeta (some ⟨some 7, none⟩) = .delete 4 ∧ restoredByMeta (some ⟨some 1, none⟩) = .keep 3 := by decide
 
 /-- the exclusion is not empty: ENOENT at the tolerant `remove_file(<layer>.toml)` of `delete_layer` (call 3 on the state
 `min`) is swallowed -/
